@@ -36,7 +36,12 @@ pub(crate) fn convert(
     // Only `userSpaceOnUse` masks can be shared,
     // because `objectBoundingBox` one will be converted into user one
     // and will become node-specific.
-    let cacheable = units == Units::UserSpaceOnUse && content_units == Units::UserSpaceOnUse;
+    //
+    // A mask linked via `mask` is converted for the same object,
+    // so an `objectBoundingBox` one anywhere down the chain makes this one node-specific as well.
+    let cacheable = units == Units::UserSpaceOnUse
+        && content_units == Units::UserSpaceOnUse
+        && !links_bbox_units(node);
     if cacheable {
         if let Some(mask) = cache.masks.get(node.element_id()) {
             return Some(mask.clone());
@@ -160,4 +165,30 @@ pub(crate) fn convert(
     let mask = Arc::new(mask);
     cache.masks.insert(id_copy, mask.clone());
     Some(mask)
+}
+
+/// Checks that a mask linked to this one, directly or not, depends on the object bounding box.
+fn links_bbox_units(node: SvgNode) -> bool {
+    let mut visited = vec![node];
+    let mut curr = node;
+    while let Some(link) = curr.attribute::<SvgNode>(AId::Mask) {
+        if link.tag_name() != Some(EId::Mask) || visited.contains(&link) {
+            break;
+        }
+
+        let units = link
+            .attribute(AId::MaskUnits)
+            .unwrap_or(Units::ObjectBoundingBox);
+        let content_units = link
+            .attribute(AId::MaskContentUnits)
+            .unwrap_or(Units::UserSpaceOnUse);
+        if units == Units::ObjectBoundingBox || content_units == Units::ObjectBoundingBox {
+            return true;
+        }
+
+        visited.push(link);
+        curr = link;
+    }
+
+    false
 }
